@@ -324,7 +324,7 @@ int main (int argc, char **argv)
   bool rt = argc > 1 && argv[1][0] == 'r';
   std::printf ("{\"t\":\"cfg\",\"name\":\"cx-%s\",\"na\":%d,\"nb\":%d,\"elem\":\"%s\",\"nothrowMove\":true,\"copyable\":true,\"hasMove\":true,"
                "\"tracked\":false,\"isStd\":true,\"pocca\":false,\"pocma\":true,\"pocs\":false,\"ae\":true,\"construct\":false,\"sizet\":64,"
-               "\"max\":1073741823,\"soccc\":0,\"std\":%ld,\"compiler\":\"%s\",\"concepts\":0,\"vector\":false,\"flt\":false,\"defval\":0,\"cx\":true}\n",
+               "\"max\":1073741823,\"soccc\":0,\"std\":%ld,\"compiler\":\"%s\",\"concepts\":0,\"vector\":false,\"flt\":false,\"defval\":0,\"adlswap\":false,\"cx\":true}\n",
                rt ? "runtime" : "consteval", CX_NA, CX_NB, CX_ELEM ? "LIT" : "INT", static_cast<long> (__cplusplus),
 #if defined (__clang__)
                "clang"
